@@ -65,7 +65,7 @@ E(th, m, a) == [th |-> th, m |-> m, mc |-> "O", a |-> a, j |-> FALSE]
 
 \* C04: thread life-cycle. 2 threads of one process, 2 physical CPUs + virtual CPU
 SysC04 == [threads |-> <<Th(101, 1001, 1, 1), Th(102, 1001, 1, 1)>>,
-           cpus |-> <<Cpu(1, 0, 10, FALSE), Cpu(1, 1, 11, FALSE), Cpu(1, -1, -1, TRUE)>>,
+           cpus |-> <<Cpu(1, 0, 11, FALSE), Cpu(1, 1, 10, FALSE), Cpu(1, -1, -1, TRUE)>>,
            marks |-> <<>>, models |-> {"O"}]
 AlphaC04 == {E(t, m, <<>>) : t \in {1, 2}, m \in {"OHp", "OHr", "OHc", "OHw", "OHe"}}
             \cup {E(t, "OHx", <<c, 101, 7>>) : t \in {1, 2}, c \in {0, -1, 5}}
@@ -73,7 +73,7 @@ AlphaC04 == {E(t, m, <<>>) : t \in {1, 2}, m \in {"OHp", "OHr", "OHc", "OHw", "O
 
 \* C05: occupancy and affinity. 3 threads (two processes), second loom with one thread
 SysC05 == [threads |-> <<Th(101, 1001, 1, 1), Th(102, 1001, 1, 1), Th(103, 1002, 2, 1), Th(201, 2001, 3, 2)>>,
-           cpus |-> <<Cpu(1, 0, 10, FALSE), Cpu(1, 1, 11, FALSE), Cpu(1, -1, -1, TRUE),
+           cpus |-> <<Cpu(1, 0, 11, FALSE), Cpu(1, 1, 10, FALSE), Cpu(1, -1, -1, TRUE),
                       Cpu(2, 0, 20, FALSE), Cpu(2, -1, -1, TRUE)>>,
            marks |-> <<>>, models |-> {"O"}]
 AlphaC05 == {E(t, m, <<>>) : t \in {1, 2, 3}, m \in {"OHp", "OHr", "OHe"}}
@@ -89,7 +89,7 @@ AlphaC05 == {E(t, m, <<>>) : t \in {1, 2, 3}, m \in {"OHp", "OHr", "OHe"}}
    (ANY, stack), MPI function (RUN), NODES subsystem (ACT) ---- *)
 G(th, mc, m) == [th |-> th, m |-> m, mc |-> mc, a |-> <<>>, j |-> FALSE]
 SysC06 == [threads |-> <<Th(101, 1001, 1, 1), Th(102, 1001, 1, 1)>>,
-           cpus |-> <<Cpu(1, 0, 10, FALSE), Cpu(1, 1, 11, FALSE), Cpu(1, -1, -1, TRUE)>>,
+           cpus |-> <<Cpu(1, 0, 11, FALSE), Cpu(1, 1, 10, FALSE), Cpu(1, -1, -1, TRUE)>>,
            marks |-> <<>>, models |-> {"O", "K", "M", "D"}]
 ThreadEvs(T) == {E(t, m, <<>>) : t \in T, m \in {"OHp", "OHr", "OHc", "OHw", "OHe"}}
 AlphaC06 == ThreadEvs({1, 2})
@@ -105,10 +105,10 @@ AlphaC06 == ThreadEvs({1, 2})
 (* ---- C08: nesting. 1 thread + a bystander, three region kinds of a model;
    the bystander checks that stacks are per thread ---- *)
 SysC08(models) == [threads |-> <<Th(101, 1001, 1, 1), Th(102, 1001, 1, 1)>>,
-                   cpus |-> <<Cpu(1, 0, 10, FALSE), Cpu(1, 1, 11, FALSE), Cpu(1, -1, -1, TRUE)>>,
+                   cpus |-> <<Cpu(1, 0, 11, FALSE), Cpu(1, 1, 10, FALSE), Cpu(1, -1, -1, TRUE)>>,
                    marks |-> <<>>, models |-> models]
 Base08 == {E(1, "OHx", <<0, 101, 7>>), E(2, "OHx", <<1, 101, 7>>), E(1, "OHp", <<>>), E(1, "OHr", <<>>),
-           E(1, "OHc", <<>>), E(1, "OHe", <<>>), E(2, "OHe", <<>>)}
+           E(1, "OHc", <<>>), E(1, "OHw", <<>>), E(1, "OHe", <<>>), E(2, "OHe", <<>>)}
 Regions(mc, T, evs) == {G(t, mc, m) : t \in T, m \in evs}
 SysC08D == SysC08({"O", "D"})
 AlphaC08D == Base08 \cup Regions("D", {1}, {"DR[", "DR]", "DU[", "DU]", "DW[", "DW]"}) \cup Regions("D", {2}, {"DR[", "DR]"})
@@ -131,7 +131,7 @@ J(th, mc, m, a) == [th |-> th, m |-> m, mc |-> mc, a |-> a, j |-> TRUE]
 ThR(tid, pid, app, loom, rank) == [tid |-> tid, pid |-> pid, app |-> app, loom |-> loom, rank |-> rank]
 \* nOS-V: 2 threads of one process (rank 2), tasks: 1 normal, 2 parallel (bodies 1,2), type 1
 SysC07V == [threads |-> <<ThR(101, 1001, 1, 1, 2), ThR(102, 1001, 1, 1, 2)>>,
-            cpus |-> <<Cpu(1, 0, 10, FALSE), Cpu(1, 1, 11, FALSE), Cpu(1, -1, -1, TRUE)>>,
+            cpus |-> <<Cpu(1, 0, 11, FALSE), Cpu(1, 1, 10, FALSE), Cpu(1, -1, -1, TRUE)>>,
             marks |-> <<>>, models |-> {"O", "V"}, nranks |-> 4]
 AlphaC07V == {E(1, "OHx", <<0, 101, 7>>), E(2, "OHx", <<1, 101, 7>>), E(1, "OHe", <<>>), E(2, "OHe", <<>>),
               E(1, "OHp", <<>>), E(1, "OHr", <<>>)}
@@ -143,9 +143,9 @@ AlphaC07V == {E(1, "OHx", <<0, 101, 7>>), E(2, "OHx", <<1, 101, 7>>), E(1, "OHe"
              \cup {A(1, "V", m, <<3, 0>>) : m \in {"VTx", "VTe"}}
              \cup {A(1, "V", "VTx", <<9, 0>>), A(1, "V", "VTc", <<4, 9>>), A(1, "V", "VTx", <<1>>)}
 \* Nanos6: relaxed nesting, no parallel tasks, body id always 1
-SysC076 == [threads |-> <<ThR(101, 1001, 1, 1, -1), ThR(102, 1001, 1, 1, -1)>>,
-            cpus |-> <<Cpu(1, 0, 10, FALSE), Cpu(1, 1, 11, FALSE), Cpu(1, -1, -1, TRUE)>>,
-            marks |-> <<>>, models |-> {"O", "6"}]
+SysC076 == [threads |-> <<ThR(101, 1001, 1, 1, 2), ThR(102, 1001, 1, 1, 2)>>,
+            cpus |-> <<Cpu(1, 0, 11, FALSE), Cpu(1, 1, 10, FALSE), Cpu(1, -1, -1, TRUE)>>,
+            marks |-> <<>>, models |-> {"O", "6"}, nranks |-> 4]
 AlphaC076 == {E(1, "OHx", <<0, 101, 7>>), E(2, "OHx", <<1, 101, 7>>), E(1, "OHe", <<>>), E(2, "OHe", <<>>),
               E(1, "OHp", <<>>), E(1, "OHr", <<>>)}
              \cup {J(1, "6", "6Yc", <<1, 5>>), J(1, "6", "6Yc", <<2, 6>>), A(1, "6", "6Tc", <<1, 1>>),
@@ -157,7 +157,7 @@ AlphaC076 == {E(1, "OHx", <<0, 101, 7>>), E(2, "OHx", <<1, 101, 7>>), E(1, "OHe"
 
 (* ---- C17: marks (emulator side). type 1 = stack, type 2 = single ---- *)
 SysC17 == [threads |-> <<Th(101, 1001, 1, 1), Th(102, 1001, 1, 1)>>,
-           cpus |-> <<Cpu(1, 0, 10, FALSE), Cpu(1, 1, 11, FALSE), Cpu(1, -1, -1, TRUE)>>,
+           cpus |-> <<Cpu(1, 0, 11, FALSE), Cpu(1, 1, 10, FALSE), Cpu(1, -1, -1, TRUE)>>,
            marks |-> <<[type |-> 1, stack |-> TRUE], [type |-> 2, stack |-> FALSE]>>, models |-> {"O"}]
 AlphaC17 == {E(1, "OHx", <<0, 101, 7>>), E(2, "OHx", <<1, 101, 7>>), E(2, "OHx", <<0, 101, 7>>),
              E(1, "OHe", <<>>), E(2, "OHe", <<>>), E(1, "OHp", <<>>), E(1, "OHr", <<>>), E(1, "OHc", <<>>),
